@@ -127,6 +127,50 @@ func funcChoice(v ssa.Value, depth int) ([]*ssa.Function, bool) {
 		}
 	case *ssa.Lookup:
 		return mapValueFuncs(x.X, depth)
+	case *ssa.UnOp:
+		// a function-typed local variable, possibly captured by closures: every store to it is a known function
+		if x.Op != token.MUL {
+			return nil, false
+		}
+		var cell *ssa.Alloc
+		switch a := x.X.(type) {
+		case *ssa.Alloc:
+			cell = a
+		case *ssa.FreeVar:
+			cell = resolveFreeVar(a)
+		}
+		if cell == nil {
+			return nil, false
+		}
+		var out []*ssa.Function
+		okAll := true
+		for _, f := range withClosures(rootFunc(cell.Parent())) {
+			allInstrs(f, func(in ssa.Instruction) {
+				st, isSt := in.(*ssa.Store)
+				if !isSt {
+					return
+				}
+				var tgt *ssa.Alloc
+				switch a := st.Addr.(type) {
+				case *ssa.Alloc:
+					tgt = a
+				case *ssa.FreeVar:
+					tgt = resolveFreeVar(a)
+				}
+				if tgt != cell {
+					return
+				}
+				if isNilConst(st.Val) {
+					return
+				}
+				if fs, ok := funcChoice(st.Val, depth+1); ok {
+					out = append(out, fs...)
+				} else {
+					okAll = false
+				}
+			})
+		}
+		return out, okAll && len(out) > 0
 	}
 	return nil, false
 }
